@@ -145,6 +145,32 @@ theorem pinned_setMetaKey (t : Target) {k : String} {x v v' : JVal} (h : setMeta
   · rw [metaKey_setMetaKey_ne h (Ne.symm hk1)]; exact h3
   · intro n hn; rw [metaKey_setMetaKey_ne h (Ne.symm hk2)]; exact h4 n hn
 
+theorem dropMetaKey_spec {k : String} {v v' : JVal} (h : dropMetaKey k v = some v') :
+    ∃ kvs m, v = .obj kvs ∧ JVal.lookup "metadata" kvs = some (.obj m) ∧
+      v' = .obj (JVal.insert "metadata" (.obj (JVal.erase k m)) kvs) := by
+  cases v with
+  | obj kvs =>
+    simp only [dropMetaKey] at h
+    cases hm : JVal.lookup "metadata" kvs with
+    | none => simp [hm] at h
+    | some mv =>
+      cases mv with
+      | obj m => simp [hm] at h; exact ⟨kvs, m, rfl, hm, h.symm⟩
+      | _ => simp [hm] at h
+  | _ => simp [dropMetaKey] at h
+
+/-- dropping a `metadata` key other than name/namespace keeps the identity -/
+theorem pinned_dropMetaKey (t : Target) {k : String} {v v' : JVal} (h : dropMetaKey k v = some v')
+    (hk1 : k ≠ "name") (hk2 : k ≠ "namespace") (hp : Pinned t v) : Pinned t v' := by
+  obtain ⟨kvs, m, rfl, hm, rfl⟩ := dropMetaKey_spec h
+  obtain ⟨h1, h2, h3, h4⟩ := hp
+  refine ⟨?_, ?_, ?_, ?_⟩
+  · simpa [getKey, lookup_insert_ne _ (show "apiVersion" ≠ "metadata" by decide)] using h1
+  · simpa [getKey, lookup_insert_ne _ (show "kind" ≠ "metadata" by decide)] using h2
+  · simpa [metaKey, getKey, lookup_insert_self, hm, lookup_erase_ne (Ne.symm hk1)] using h3
+  · intro n hn
+    simpa [metaKey, getKey, lookup_insert_self, hm, lookup_erase_ne (Ne.symm hk2)] using h4 n hn
+
 /-! ## `_prepare_for_api` in closed form -/
 
 theorem insert_insert_same (k : String) (x y : JVal) : ∀ l : Fields,
